@@ -337,6 +337,13 @@ func (e *SpecEnv) eval(x *SX) Term {
 			}
 		}
 		body := n.evalBool(x.Args[0])
+		if len(x.Pats) > 0 {
+			var pts []string
+			for _, p := range x.Pats {
+				pts = append(pts, n.eval(p).S)
+			}
+			return Term{"(" + x.Op + " (" + strings.Join(decl, " ") + ") (! " + body.S + " :pattern (" + strings.Join(pts, " ") + ")))", sBool}
+		}
 		if len(pats) > 0 && x.Op == "forall" && len(x.BindNames) == 1 {
 			seen := map[string]bool{}
 			var ps []string
@@ -757,6 +764,15 @@ func (e *SpecEnv) call(x *SX) Term {
 	case "seq":
 		// seq(s) : the elements of a byte slice / string as a mathematical sequence value
 		return e.seqOf(args[0])
+	case "raw":
+		// raw(s): the whole backing array of a byte slice (index it with off(s)+i); no shift, no axiom
+		a := e.eval(args[0])
+		if a.T.K != KSlice {
+			e.bad("raw() needs a slice")
+		}
+		hn, hs, _ := u.elemHeapName(a.T.Go.Underlying().(*types.Slice).Elem())
+		h := u.heap(e.st, hn, hs)
+		return Term{"(select " + h.S + " (s-ref " + a.S + "))", seqSort}
 	case "arr":
 		// arr(s) : the elements of a byte slice / string as an array indexed from 0 (sort seq)
 		t := e.seqOf(args[0])
@@ -1045,6 +1061,12 @@ func substSX(x *SX, sub map[string]*SX) *SX {
 	n.Args = make([]*SX, len(x.Args))
 	for i, a := range x.Args {
 		n.Args[i] = substSX(a, sub)
+	}
+	if len(x.Pats) > 0 {
+		n.Pats = make([]*SX, len(x.Pats))
+		for i, a := range x.Pats {
+			n.Pats[i] = substSX(a, sub)
+		}
 	}
 	return &n
 }
